@@ -67,7 +67,8 @@ fn check(id: &str, tier: &str) -> i32 {
     }
 
     // ---- replay discipline: every reported violation must reproduce identically twice
-    let mut machinery = report.machinery_errors.clone();
+    // non-vacuity assertions are only meaningful on a run without violations (a violation legitimately cuts exploration short)
+    let mut machinery = if unknown.is_empty() { report.machinery_errors.clone() } else { vec![] };
     let mut replay_paths: Vec<(String, String)> = vec![];
     if !unknown.is_empty() {
         let dir = format!("{VERIF}/replays/{id}");
@@ -98,7 +99,7 @@ fn check(id: &str, tier: &str) -> i32 {
     let nontriv = if !acc.nontrivial_set.is_empty() { acc.nontrivial_set.len() as u64 } else { acc.nontrivial };
     let mut samples: Vec<Json> = acc.samples.iter().take(6).map(Json::s).collect();
     if samples.is_empty() { if let Some(f) = &acc.fallback { samples.push(Json::s(f)); } }
-    if samples.is_empty() { samples.push(Json::s("(engine recorded no sample)")); machinery.push("engine recorded no sample".into()); }
+    if samples.is_empty() { samples.push(Json::s("(engine recorded no sample)")); if unknown.is_empty() { machinery.push("engine recorded no sample".into()); } }
     let mut cov = vec![
         ("states".to_string(), Json::i(states)),
         ("transitions".to_string(), Json::i(transitions)),
